@@ -19,6 +19,7 @@ func runC01(r *fw.Run, p *fw.Program) {
 	c01EOF(r, p)
 	c01Ahead(r, p)
 	c01ReadAt(r, p)
+	c01Drain(r, p)
 	c01Err(r, p)
 	c01Pad(r, p)
 	c01Cursor(r, p)
@@ -1257,5 +1258,60 @@ func c01ReadAt(r *fw.Run, p *fw.Program) {
 			}
 		}
 		ru.Check(ok, fmt.Sprintf("ReadBitsAt:read#%d:positioned", i+1), p.Rel(rd.Pos()), "read of rs preceded by an absolute seek on every path", "a read of the shared byte reader is not preceded on every path by rs.Seek(.., io.SeekStart): the bytes come from wherever another reader of the same rs left it")
+	}
+}
+
+// c01Drain: bitio.Buffer.ReadBits copies min(nBits, Len()) bits into p without looking at len(p). Where
+// p is a slice of a fixed-size array (the drain buffers of IOBitWriter), the requested count is proved
+// <= 8*len(array) at the call - otherwise a write larger than the drain buffer is a slice bounds panic.
+var c01DrainExceptions = map[string]string{
+	"(*pkg/bitio.IOBitWriter).Flush#1": "Flush reads what WriteBits left: its drain loop ends only with fewer than 8 bits buffered, so Len() <= 7 <= 8*len(buf) whenever WriteBits returned without an error (an invariant across calls, not visible inside Flush)",
+}
+
+func c01Drain(r *fw.Run, p *fw.Program) {
+	ru := r.Rule("C01.drain", "every Buffer.ReadBits into a slice of a fixed-size array asks for at most 8*len(array) bits (ReadBits trusts its count; a drain of more than the staging buffer holds is a slice bounds panic, as for a single write larger than 32KiB)", 2)
+	for _, fn := range p.FqFunctions() {
+		if pkgRel(fn) != "pkg/bitio" {
+			continue
+		}
+		var env *fw.IntervalEnv
+		ord := 0
+		for _, c := range fw.CallsIn(fn) {
+			cal := c.Common().StaticCallee()
+			if cal == nil || cal.Name() != "ReadBits" || cal.Signature.Recv() == nil || !strings.HasSuffix(types.TypeString(cal.Signature.Recv().Type(), nil), "bitio.Buffer") {
+				continue
+			}
+			args := c.Common().Args
+			if len(args) < 3 {
+				continue
+			}
+			sl, ok := args[1].(*ssa.Slice)
+			if !ok {
+				continue
+			}
+			pt, ok := sl.X.Type().Underlying().(*types.Pointer)
+			if !ok {
+				continue
+			}
+			arr, ok := pt.Elem().Underlying().(*types.Array)
+			if !ok || sl.Low != nil || sl.High != nil {
+				continue
+			}
+			ord++
+			key := fmt.Sprintf("%s#%d", fw.ShortFn(fn), ord)
+			if env == nil {
+				env = fw.NewIntervalEnv(fn)
+			}
+			iv := env.At(args[2], c.Block())
+			if !iv.HiInf && iv.Hi <= arr.Len()*8 {
+				ru.Ok(key, p.Rel(c.Pos()), fmt.Sprintf("count <= %d = 8*len(buffer)", arr.Len()*8))
+				continue
+			}
+			if reason, ok := c01DrainExceptions[key]; ok {
+				ru.Except(key, p.Rel(c.Pos()), reason)
+				continue
+			}
+			ru.Fail(key, p.Rel(c.Pos()), fmt.Sprintf("ReadBits into a %d byte array asks for %s bits, not proved <= %d: buffered bits beyond the staging array are a slice bounds panic", arr.Len(), env.Poly.Of(args[2]).String(), arr.Len()*8))
+		}
 	}
 }
